@@ -55,6 +55,7 @@ def scenarios(tier):
     s.append(Scenario('same_command_text_in_two_dirs', base + ['/p/in'],
                       [(['/p/in'], None)], [('c', '/p'), ('c', '/q')], [], []))
     s.append(Scenario('single_file', base + ['/p/in'], [(['/p/in'], None)], [], [], []))
+    s.append(Scenario('overlapping_resources', base + ['/p/d', '/p/d/f'], [(['/p/d'], None), (['/p/d/f', '/p/d'], None)], [], [(['/p/d/f'], None)], []))
     if tier == 'thorough':
         s.append(Scenario('two_files_and_output_dir', base + ['/p/src', '/p/src/a', '/p/src/b', '/p/out', '/p/out/x.o'],
                           [(['/p/src'], None)], [], [(['/p/out'], ['.o'])], []))
